@@ -2,17 +2,20 @@
 from __future__ import annotations
 import ast
 from fractions import Fraction
-from ..frontend import AnalysisError, src, dotted
+from ..frontend import AnalysisError, src, dotted, walk_no_nested
 from ..lin import Lin, Form
 from ..symx import run_paths
 
 FE = 'thermosteam/free_energy.py'
 MANIFEST = {
-    'technique': 'symbolic linear-form (Laurent polynomial) identity checking over the ast of free_energy.py and Chemical._init_energies; comprehension-shape rules for mixture models',
-    'text': 'Decides, for every input, the algebraic clauses of C07: with the integral additivity axiom the 3x18 reference-state / '
-            'derivative / pressure / phase-jump identities of the enthalpy and entropy functors hold as equalities of symbolic forms, '
-            'data tuples bind functor parameters with the right arity and position, mixture H/S/Cn are mole-weighted sums over stored '
-            'entries and the ideal mixing term has coefficient -R. Numerical model values are out of scope.',
+    'technique': 'symbolic linear-form (Laurent polynomial) identity checking over the ast of free_energy.py and Chemical._init_energies; comprehension-shape rules for '
+            'mixture models; typestate rule (dirty after a change of a frozen input, clean after reset_free_energies) over the CFGs of the Chemical methods with '
+            'interprocedural summaries',
+    'text': 'Decides, for every input, the algebraic clauses of C07: with the integral additivity axiom the 3x18 reference-state / derivative / pressure / '
+            'phase-jump identities of the enthalpy and entropy functors hold as equalities of symbolic forms, data tuples bind functor parameters with the right '
+            'arity and position, mixture H/S/Cn are mole-weighted sums over stored entries and the ideal mixing term has coefficient -R; every public Chemical '
+            'method that changes a model or constant frozen into the functors (the arguments reset_free_energies hands to _init_energies) rebuilds the functors on '
+            'every normal path before returning. Numerical model values are out of scope.',
 }
 CH = 'thermosteam/_chemical.py'
 IMM = 'thermosteam/mixture/ideal_mixture_model.py'
@@ -144,6 +147,8 @@ def run(ctx):
         'D2 for each reference phase: H(T_ref)=H_ref, S(T_ref,P_ref)=S0, one +1 integral of the matching-phase Cn per functor '
         '(=> dH/dT=Cn, dS/dT=Cn/T), only gas S depends on P through -R log(P/P_ref), jumps at Tb/Tm equal Hvap/Hfus (/T for S)',
         'D3 mixture models are sum_i n_i f_i over stored entries; entropy mixing term coefficient is -R; excess only when enabled',
+        'D4 typestate: after a public Chemical method changes a model or constant that the H/S functors freeze (the arguments '
+        'reset_free_energies hands to _init_energies), the functors are rebuilt on every normal path before the method returns',
     ]
     ctx.not_decided = ['values delivered by the database models', 'derivative relations of the external integral implementations']
     functors = functor_table(prog)
@@ -153,6 +158,9 @@ def run(ctx):
 
     r0 = ctx.rule('D1z', 'builder __call__ pairs phase letter, builder and data tuple', floor=4)
     check_builder_call_zip(ctx, r0)
+
+    r4 = ctx.rule('D4', 'H/S functors are rebuilt after their frozen inputs change', floor=6)
+    frozen_follow_inputs(ctx, r4)
 
     r1 = ctx.rule('D1', 'arity of data tuples / functor() calls equals functor parameter list', floor=29)
     r2 = ctx.rule('D2', 'reference-state, derivative, pressure and phase-jump identities (D-lin)', floor=27)
@@ -524,4 +532,250 @@ def mixture_rules(ctx):
 def _enclosing(n):
     while n is not None and not isinstance(n, (ast.FunctionDef, ast.ClassDef)):
         n = getattr(n, '_parent', None)
+    return n
+
+
+# ---------------------------------------------------------------------------------------------------------------
+# D4: the H / S functors freeze integrals of Cn, Hvap(Tb), Tm, Tb ... at construction.  They follow their inputs only
+# if every method that changes an input rebuilds them.
+
+def frozen_follow_inputs(ctx, rule):
+    import copy as _copy
+    from ..cfg import CFG, header_exprs
+    from ..frontend import set_parents
+    prog = ctx.prog
+    c = prog.cls('Chemical', CH)
+    rf = c.methods.get('reset_free_energies')
+    if rf is None:
+        raise AnalysisError('Chemical.reset_free_energies not found')
+    frozen = set()
+    builder = None
+    for n in walk_no_nested(rf.node):
+        if isinstance(n, ast.Call) and isinstance(n.func, ast.Attribute) and src(n.func.value) == 'self' and len(n.args) >= 5:
+            fr = {a.attr for a in n.args if isinstance(a, ast.Attribute) and src(a.value) == 'self'}
+            if len(fr) > len(frozen):
+                frozen, builder = fr, n.func.attr
+    ctx.anchor(len(frozen) >= 8, 'reset_free_energies: expected >= 8 frozen inputs, found %s' % sorted(frozen))
+    bare = {x.lstrip('_') for x in frozen}
+    CLEAN = {'reset_free_energies', builder}
+    mod = c.module
+
+    def opt_out_params(f):
+        a = f.node.args
+        pos = a.posonlyargs + a.args
+        d = dict(zip([x.arg for x in pos[len(pos) - len(a.defaults):]], a.defaults))
+        d.update({k.arg: v for k, v in zip(a.kwonlyargs, a.kw_defaults) if v is not None})
+        names = {k for k, v in d.items() if isinstance(v, ast.Constant) and v.value is True}
+        used = {n.test.id for n in walk_no_nested(f.node) if isinstance(n, ast.If) and isinstance(n.test, ast.Name)}
+        return names & used
+
+    class _Default(ast.NodeTransformer):
+        def __init__(self, names):
+            self.names = names
+
+        def visit_If(self, node):
+            self.generic_visit(node)
+            if isinstance(node.test, ast.Name) and node.test.id in self.names:
+                return node.body
+            return node
+
+    def may_be_frozen_handle(e, env, recv):
+        """may e denote one of the frozen handles (Cn, Hvap, Psat ...) or a part of one?"""
+        if isinstance(e, ast.Attribute) and src(e.value) == recv:
+            return e.attr in frozen
+        if isinstance(e, ast.Attribute):
+            return may_be_frozen_handle(e.value, env, recv)
+        if isinstance(e, ast.Name):
+            return env.get(e.id, False)
+        if isinstance(e, ast.Call) and src(e.func) in ('getattr', 'getfield') or isinstance(e, ast.Call) and isinstance(e.func, ast.Name) and env.get('@' + e.func.id):
+            if not e.args:
+                return False
+            a0 = e.args[0]
+            if src(a0) == recv:
+                if len(e.args) > 1 and isinstance(e.args[1], ast.Constant):
+                    return str(e.args[1].value) in frozen or str(e.args[1].value) in bare
+                return True            # looked up by a computed name: may be any handle
+            return may_be_frozen_handle(a0, env, recv)
+        if isinstance(e, ast.Subscript):
+            return may_be_frozen_handle(e.value, env, recv)
+        return False
+
+    def handle_env(fnode, recv):
+        env = {}
+        # local aliases of getattr
+        for n in walk_no_nested(fnode):
+            if isinstance(n, ast.Assign) and src(n.value) in ('getattr',) and isinstance(n.targets[0], ast.Name):
+                env['@' + n.targets[0].id] = True
+        changed = True
+        while changed:
+            changed = False
+            for n in walk_no_nested(fnode):
+                pairs = []
+                if isinstance(n, ast.Assign):
+                    for t in n.targets:
+                        pairs.append((t, n.value))
+                elif isinstance(n, ast.For):
+                    pairs.append((n.target, n.iter))
+                for t, v in pairs:
+                    if not may_be_frozen_handle(v, env, recv):
+                        continue
+                    for x in ([t] if isinstance(t, ast.Name) else (t.elts if isinstance(t, ast.Tuple) else [])):
+                        if isinstance(x, ast.Name) and not env.get(x.id):
+                            env[x.id] = True
+                            changed = True
+        return env
+
+    def fill_missing(st, field):
+        """`if '<field>' in <names of missing properties>: self._field = default` -- the field was None before"""
+        par = st._parent
+        if isinstance(par, ast.If) and st in par.body and isinstance(par.test, ast.Compare) and isinstance(par.test.ops[0], ast.In) \
+                and isinstance(par.test.left, ast.Constant) and str(par.test.left.value) == field.lstrip('_'):
+            return True
+        return False
+
+    funcs = {}
+    for name, f in c.methods.items():
+        if f.cls is c:
+            funcs[name] = f
+    for name, f in c.setters.items():
+        if f.cls is c:
+            funcs[name + '.setter'] = f
+    helpers = {name: f for name, f in mod.functions.items() if f.params}
+    dirty = {}          # name -> reason   (methods / module helpers that may return with stale functors)
+    optout = {name: opt_out_params(f) for name, f in funcs.items()}
+
+    def sites(f, recv, fnode):
+        env = handle_env(fnode, recv)
+        out = []
+        for n in walk_no_nested(fnode):
+            if isinstance(n, (ast.Assign, ast.AugAssign)):
+                for t in (n.targets if isinstance(n, ast.Assign) else [n.target]):
+                    if isinstance(t, ast.Attribute) and t.attr in ('method', 'method_P') and may_be_frozen_handle(t.value, env, recv):
+                        out.append((n, 'selects another model of a frozen handle (%s)' % src(t)))
+                    if isinstance(t, ast.Attribute) and src(t.value) == recv and t.attr in frozen:
+                        st = n
+                        if not fill_missing(st, t.attr):
+                            out.append((n, 're-binds %s' % src(t)))
+            if isinstance(n, ast.Call):
+                fn_ = src(n.func)
+                if isinstance(n.func, ast.Attribute) and n.func.attr in ('add_method', 'add_model') and may_be_frozen_handle(n.func.value, env, recv):
+                    out.append((n, 'adds a model to a frozen handle (%s)' % fn_))
+                if fn_ == 'reset_constant' and len(n.args) >= 2 and src(n.args[0]) == recv and isinstance(n.args[1], ast.Constant) \
+                        and str(n.args[1].value) in bare:
+                    out.append((n, 'changes the constant %s' % n.args[1].value))
+                if isinstance(n.func, ast.Attribute) and src(n.func.value) == recv:
+                    m = n.func.attr
+                    if m in dirty:
+                        out.append((n, 'calls %s.%s, which %s' % (recv, m, dirty[m])))
+                    elif m in optout and any(k.arg in optout[m] and isinstance(k.value, ast.Constant) and k.value.value is False for k in n.keywords):
+                        out.append((n, 'calls %s.%s with the rebuild switched off' % (recv, m)))
+                if isinstance(n.func, ast.Name) and n.func.id in dirty and n.args and src(n.args[0]) == recv:
+                    out.append((n, 'calls %s, which %s' % (n.func.id, dirty[n.func.id])))
+        return out
+
+    def analyse(name, f, recv):
+        fnode = f.node
+        oo = optout.get(name) or set()
+        if oo:
+            fnode = _Default(oo).visit(_copy.deepcopy(f.node))
+            ast.fix_missing_locations(fnode)
+            set_parents(fnode)
+        ss = sites(f, recv, fnode)
+        if not ss:
+            return [], []
+        cfg = CFG(fnode)
+        bad = []
+        for n, why in ss:
+            st = n
+            while not isinstance(st, ast.stmt):
+                st = st._parent
+            node = cfg.node_of(st)
+
+            def clean(nd):
+                if nd is node or nd.kind != 'stmt':
+                    return False
+                for h in header_exprs(nd):
+                    for x in ast.walk(h):
+                        if isinstance(x, ast.Call) and isinstance(x.func, ast.Attribute) and src(x.func.value) == recv:
+                            m = x.func.attr
+                            if m in CLEAN:
+                                return True
+                            if m in cleaners and not any(k.arg in (optout.get(m) or ()) for k in x.keywords):
+                                return True
+                return False
+            okk, wit = cfg.must_pass(node, clean)
+            if not okk:
+                bad.append((st, why))
+        return ss, bad
+
+    cleaners = set()       # methods that rebuild on every normal path (at default arguments)
+    for name, f in funcs.items():
+        fnode = f.node
+        oo = optout.get(name) or set()
+        if oo:
+            fnode = _Default(oo).visit(_copy.deepcopy(f.node))
+            set_parents(fnode)
+        cfg = CFG(fnode)
+
+        def isclean(nd):
+            if nd.kind != 'stmt':
+                return False
+            return any(isinstance(x, ast.Call) and isinstance(x.func, ast.Attribute) and src(x.func.value) == 'self' and x.func.attr in CLEAN
+                       for h in header_exprs(nd) for x in ast.walk(h))
+        okk, _ = cfg.must_pass(cfg.entry, isclean)
+        if okk and name not in CLEAN:
+            cleaners.add(name)
+    results = {}
+    changed = True
+    while changed:
+        changed = False
+        for name, f in helpers.items():
+            ss, bad = analyse(name, f, f.params[0])
+            if bad and name not in dirty:
+                dirty[name] = bad[0][1]
+                changed = True
+        for name, f in funcs.items():
+            if name in CLEAN:
+                continue
+            ss, bad = analyse(name, f, 'self')
+            results[name] = (f, ss, bad)
+            key = name[:-7] if name.endswith('.setter') else name
+            if bad and key not in dirty and not name.endswith('.setter'):
+                dirty[key] = bad[0][1]
+                changed = True
+    # constructors: (transitively) build the handles from scratch; their callers choose whether to build the functors
+    builds = {name for name, f in funcs.items() if any(isinstance(n, ast.Attribute) and isinstance(n.ctx, ast.Store) and src(n.value) == 'self'
+                                                       and n.attr in frozen and not fill_missing(_stmt(n), n.attr) and f.name.startswith('_init')
+                                                       for n in walk_no_nested(f.node))}
+    ctor = set(builds)
+    grew = True
+    while grew:
+        grew = False
+        for name, f in funcs.items():
+            if name in ctor:
+                continue
+            for n in walk_no_nested(f.node):
+                if isinstance(n, ast.Call) and isinstance(n.func, ast.Attribute) and src(n.func.value) == 'self' and n.func.attr in ctor:
+                    ctor.add(name)
+                    grew = True
+                    break
+    n_ob = 0
+    for name, (f, ss, bad) in sorted(results.items()):
+        public = not name.startswith('_') or name == '__new__'
+        if not ss or not public or name in ctor:
+            continue
+        n_ob += 1
+        cons = 'Chemical.' + name
+        if not bad:
+            rule.ok(cons, '%d change(s) of frozen inputs (%s); the functors are rebuilt on every normal path afterwards' % (len(ss), ss[0][1]), f, ss[0][0])
+        else:
+            st, why = bad[0]
+            rule.fail(cons, 'stale-functors', 'the method %s, but some normal path returns without reset_free_energies(): H and S keep the integrals and '
+                      'phase-change terms of the previous models (the jump at Tb no longer equals Hvap(Tb))' % why, f, st)
+    ctx.anchor(n_ob >= 6, 'Chemical: expected >= 6 public methods that change frozen inputs, found %d' % n_ob)
+
+
+def _stmt(n):
+    while not isinstance(n, ast.stmt):
+        n = n._parent
     return n
